@@ -8,7 +8,7 @@ RULE = ("patterns = base x operator sequence (all legal and illegal one- and two
         "'-', non-ASCII, glob characters; names = {base, proper prefix, suffix-extended, case-changed, other} x {-v, no dash, "
         "trailing '-'}; asked through Dewey and through Pattern; plus EVERY string of length <= 4 (thorough 5) over 'p1<>=-.' as a pattern against a name panel; non-trivial = the pattern has >= 1 operator and the name has a '-'")
 FUNCTIONAL = True
-BOUNDS = ["", "1", "1.0", "2", "1.0nb1", "=1", "1alpha", "0", "10", "1.5", "é", "1-2"]
+BOUNDS = ["", "1", "1.0", "2", "1.0nb1", "=1", "1alpha", "0", "10", "1.5", "é", "1-2", "0.0", "0", "", "0nb1", "00"]
 
 
 def generate(rng, tier):
@@ -32,7 +32,8 @@ def generate(rng, tier):
         cases.append(Case("pat.new", [enc(p)]))
         names = []
         for bb in [b, b[:-1], b + "x", b.swapcase(), "other"]:
-            v = rng.choice(["1", "1.0", "1.5", "2", "0", "1.0nb1", "1.0nb2", "1alpha", "", "10"])
+            # versions below zero exist: alpha/beta/rc/pre are negative components
+            v = rng.choice(["1", "1.0", "1.5", "2", "0", "1.0nb1", "1.0nb2", "1alpha", "", "10", "0alpha1", "alpha", "0rc1", "0beta3", "pre", "0.0", "0nb1"])
             names += [bb + "-" + v, bb, bb + "-"]
         v = rng.choice(["1", "1.0", "1.5", "2", "0", "10"])
         # the base must equal the text before the LAST '-', not merely be a prefix ending at some '-'
